@@ -429,7 +429,7 @@ pub fn gen_lex(rng: &mut Rng, sink: &mut Sink, pool: &[Pos], sys: Option<&Lex>, 
             }
         };
         let ids = ids_below.max(1);
-        rows.push(Row {
+        let mut row = Row {
             // at least one row must be indexed (an empty index makes the trie builder panic: C06's concern)
             left: if i > 0 && rng.chance(1, 10) { -1 } else { rng.below(ids as u64) as i16 },
             right: rng.below(ids as u64) as i16,
@@ -458,7 +458,24 @@ pub fn gen_lex(rng: &mut Rng, sink: &mut Sink, pool: &[Pos], sys: Option<&Lex>, 
                 _ => Some(vec![rng.below(100) as u32]),
             },
             star_lists: rng.chance(1, 2),
-        });
+        };
+        // homonyms: a row with the index form, headword, POS and reading of an earlier own row or of a system row, so that
+        // inline references meet several candidates (first own row wins, own rows win over system rows)
+        if i > 0 && rng.chance(1, 7) {
+            let mut cands: Vec<&Row> = rows.iter().filter(|r| r.surface.len() < 300).collect();
+            if let Some(s) = sys {
+                cands.extend(s.rows.iter().filter(|r| r.surface.len() < 300));
+            }
+            if !cands.is_empty() {
+                let t = (*rng.pick(&cands)).clone();
+                sink.tag("homonym_row");
+                row.surface = t.surface;
+                row.headword = t.headword;
+                row.pos = t.pos;
+                row.reading = t.reading;
+            }
+        }
+        rows.push(row);
     }
     Lex { rows, user }
 }
@@ -472,6 +489,7 @@ pub struct Expected {
     pub splits_b: Vec<Vec<u32>>,
     pub ws: Vec<Vec<u32>>,
     pub dic_raw: Vec<u32>,
+    pub inline_pos: Vec<Vec<u16>>, // per row: POS ids of its inline references, columns 15 then 16
 }
 fn opt_reading<'a>(surface: &str, reading: &'a str) -> Option<&'a str> {
     if surface == reading {
@@ -511,7 +529,7 @@ pub fn expect(lex: &Lex, pool: &[Pos], sys: Option<(&Lex, &Expected)>) -> Option
         _ => unreachable!(),
     };
     let own_dic: u32 = if lex.user { 1 } else { 0 };
-    let mut e = Expected { pos_ids: pos_ids.clone(), new_pos: table[start..].to_vec(), splits_a: vec![], splits_b: vec![], ws: vec![], dic_raw: vec![] };
+    let mut e = Expected { pos_ids: pos_ids.clone(), new_pos: table[start..].to_vec(), splits_a: vec![], splits_b: vec![], ws: vec![], dic_raw: vec![], inline_pos: inline_pos.clone() };
     if sys.is_none() {
         e.new_pos = table.clone();
     }
@@ -745,6 +763,40 @@ fn entries_coq(lex: &Lex, e: &Expected) -> String {
         )
     }))
 }
+/// the rows as the Resolve model takes them: index form, entry without split arrays, split units as written
+fn rows_coq(lex: &Lex, e: &Expected) -> String {
+    clist(lex.rows.iter().enumerate().map(|(i, r)| {
+        let mut k = 0usize;
+        let mut unit = |x: &Ref| match x {
+            Ref::Sys(n) => format!("SRef {}", cn(*n)),
+            Ref::User(n) => format!("SRef {}", cn((1u32 << 28) | *n)),
+            Ref::Inline { surface, reading, .. } => {
+                let pid = e.inline_pos[i][k];
+                k += 1;
+                format!("inline_of {} {} {}", ctxt(surface), cn(pid), ctxt(reading))
+            }
+        };
+        let a = clist(r.split_a.iter().map(|x| unit(x)).collect::<Vec<_>>());
+        let b = clist(r.split_b.iter().map(|x| unit(x)).collect::<Vec<_>>());
+        format!(
+            "mkRow {} (mkEntry {} {} {} {} {} {} [] [] {} {} {} {} {}) {} {}",
+            ctxt(&r.surface),
+            ctxt(&r.headword),
+            cnu(r.surface.len()),
+            cn(e.pos_ids[i]),
+            ctxt(&r.norm),
+            cn(e.dic_raw[i]),
+            ctxt(&r.reading),
+            cnlist(&e.ws[i]),
+            cnlist(r.synonyms.as_deref().unwrap_or(&[])),
+            cz(r.left as i64),
+            cz(r.right as i64),
+            cz(r.cost as i64),
+            a,
+            b
+        )
+    }))
+}
 fn or_headword<'a>(r: &'a Row, t: &'a str) -> &'a str {
     if t.is_empty() {
         &r.headword
@@ -880,7 +932,7 @@ pub fn run_case(sink: &mut Sink, c: &Case, desc: Value, verbose: bool) {
                 }
                 sink.tag(if (view.as_ptr() as usize) % 2 == 1 { "loaded_unaligned" } else { "loaded_aligned" });
             }
-            let term = full_term(&c.sys, &sys_exp, &c.matrix, &sys_bytes, c.time, &c.descr, 0, 0, 0, &rbs, &conn_reads);
+            let term = full_term(&c.sys, &sys_exp, None, &c.matrix, &sys_bytes, c.time, &c.descr, 0, 0, 0, &rbs, &conn_reads);
             let expd = expected_rb(&c.sys, &sys_exp, 0);
             for (i, (x, y)) in expd.iter().zip(rbs.iter()).enumerate() {
                 if x != y && bad.is_none() {
@@ -978,9 +1030,10 @@ pub fn run_case(sink: &mut Sink, c: &Case, desc: Value, verbose: bool) {
             let term = if has_finding_row {
                 sections(&ub).map(|s| {
                     format!(
-                        "check_c05_model_only {} {} {} 1%N {} {} {}",
+                        "check_c05_model_only_rows {} true {} {} {} 1%N {} {} {}",
                         cnu(s.words_offset),
-                        entries_coq(user, &uexp),
+                        rows_coq(user, &uexp),
+                        entries_coq(&c.sys, &sys_exp),
                         cblob(s.words),
                         cnu(nsys),
                         cnu(nsys),
@@ -988,7 +1041,7 @@ pub fn run_case(sink: &mut Sink, c: &Case, desc: Value, verbose: bool) {
                     )
                 })
             } else {
-                full_term(user, &uexp, &um, &ub, c.time, &c.descr, 1, nsys, nsys, &rbs, &[])
+                full_term(user, &uexp, Some((&c.sys, &sys_exp)), &um, &ub, c.time, &c.descr, 1, nsys, nsys, &rbs, &[])
             };
             let id = match term {
                 Some(t) => sink.case(t, desc, true),
@@ -1033,6 +1086,7 @@ fn expected_rb(lex: &Lex, e: &Expected, dic: u8) -> Vec<Readback> {
 fn full_term(
     lex: &Lex,
     e: &Expected,
+    sys: Option<(&Lex, &Expected)>,
     m: &Matrix,
     bytes: &[u8],
     time: u64,
@@ -1045,7 +1099,7 @@ fn full_term(
 ) -> Option<String> {
     let s = sections(bytes)?;
     Some(format!(
-        "check_c05 {} {} {} {} {} {} {} {} {} {} {} {} {} {} {} {} {} {} {}",
+        "check_c05_rows {} {} {} {} {} {} {} {} {} {} {} {} {} {} {} {} {} {} {} {} {}",
         cn(version_of(lex.user)),
         cn(time),
         cblob(descr.as_bytes()),
@@ -1058,7 +1112,9 @@ fn full_term(
         cblob(s.conn),
         clist(conn_reads.iter().map(|(l, r, c)| format!("({}, {}, {})", cn(*l), cn(*r), cz(*c as i64)))),
         cnu(s.words_offset),
-        entries_coq(lex, e),
+        cbool(lex.user),
+        rows_coq(lex, e),
+        sys.map(|(l, x)| entries_coq(l, x)).unwrap_or_else(|| "[]".to_string()),
         cblob(s.words),
         cn(dic),
         cnu(nsys),
@@ -1125,7 +1181,7 @@ fn case_from_state(state: u64, user: bool, big: bool, findings: bool, sink: &mut
 }
 
 pub fn run(args: &Args) {
-    let mut sink = Sink::new("C05", &args.out, &["Model.Codec", "Model.CodecIO", "Model.CodecCheck"], args.seed, &args.tier);
+    let mut sink = Sink::new("C05", &args.out, &["Model.Codec", "Model.CodecIO", "Model.CodecResolve", "Model.CodecCheck"], args.seed, &args.tier);
     sink.shard_size = 40;
     sink.rule("random lexicons of 1..7 rows (strings of 1..3 chars or 126/127/128/129/255..257/32766/32767 UTF-16 units mixing kana, kanji, ASCII, U+7F/80/7FF/800/D7FF/E000/FFFF and astral characters, \\uXXXX and \\u{X} escapes, forms empty / equal to the headword / different, index form of 126..128 bytes, arrays of 0/1/2/127 ids, numeric, U-prefixed and inline references, dictionary-form references, synonym column present/absent/empty) x matrices 1..5 x 1..5 (non-square, duplicated and missing cells, extreme costs) x system / user dictionary; non-trivial = at least two rows (system) or a user dictionary; distinct by generated Coq term");
     if let Some(p) = &args.replay {
